@@ -242,7 +242,8 @@ def run(ctx):
             for arm in m['arms']:
                 vs = [p.split('variant:')[1].split('(')[0].split('{')[0].split('::')[-1] for p in arm['pats'] if p.startswith('variant:')]
                 pushes = any(r.endswith('::push') for r in arm['refs'])
-                errs = any(r == M + 'IdeError::new' for r in arm['refs'])
+                # the arm rejects when it builds an Err (however the error value itself is produced)
+                errs = any(r == 'core::result::Result::Err' for r in arm['refs'])
                 for v in vs:
                     if errs and not pushes:
                         rejected.add(v)
@@ -361,14 +362,14 @@ def run(ctx):
                 starts = [b for (_, b) in wpos]
                 rs = fn.reach(starts)
                 bump = [b for b in fn.g if b in rs and fn.assigns_field(b, lambda f: f.endswith('IdeDocumentEntry.version'))]
-                ok, path = fn.must_pass_from(starts, bump)
+                ok, path = fn.must_pass_from(starts, bump, removed_edges=wneg)
                 if bump and ok:
                     r5.ok('version-bump', loc=fn.loc(bump[0]))
                 else:
                     r5.bad('version-bump', 'a successful write can return without bumping the document version (the next stale writer is accepted)',
                            loc=fn.loc(wb), witness={'path_lines': fn.path_lines(path)})
                 cont = [b for b in fn.g if b in rs and fn.assigns_field(b, lambda f: f.endswith('IdeDocumentEntry.content'))]
-                ok2, path2 = fn.must_pass_from(starts, cont)
+                ok2, path2 = fn.must_pass_from(starts, cont, removed_edges=wneg)
                 if cont and ok2:
                     r5.ok('content-sync')
                 else:
